@@ -175,6 +175,20 @@ def einsum(expr, *args, **kwargs):
     return tf.reshape(data[0], replace_none_in_shape(final_shape, -1))
 
 
+def _broadcast_blocks(shape_a, shape_b):
+    """number of blocks of adjacent dimensions with the same broadcast
+    direction (equal, a expands, b expands); size-1 pairs do not count"""
+    n, prev = 0, None
+    for a, b in zip(shape_a, shape_b):
+        if a == 1 and b == 1:
+            continue
+        state = 0 if a == b else (1 if a == 1 else 2)
+        if state != prev:
+            n += 1
+            prev = state
+    return n
+
+
 def tensor_einsum_reduce_sum(expr, *args, order):
     """
     "abe,bcf->acef"  =reshape=> "ab1e1,1bc1f->acef" =product=> "abcef->acef" =reduce_sum=> "acef"
@@ -227,6 +241,17 @@ def tensor_einsum_reduce_sum(expr, *args, order):
     ]
 
     # product
+    # the element-wise product kernel broadcasts at most 5 blocks of
+    # dimensions; in graph mode that only fails when the graph runs, where
+    # callers can no longer fall back, so decline here for such layouts
+    acc_shape = list(expand_shapes[-1])
+    for shape_i in expand_shapes[-2::-1]:
+        if _broadcast_blocks(acc_shape, shape_i) > 5:
+            return tf.einsum(expr, *args)
+        acc_shape = [
+            b if (a is not None and a == 1) else a
+            for a, b in zip(acc_shape, shape_i)
+        ]
     ret_1 = s_args.pop()
     while len(s_args) > 0:
         ret_1 = ret_1 * s_args.pop()
